@@ -144,6 +144,9 @@ def run_check(prop, tier, seed, keep=False):
             checker_cmd = checker_cmd or res.get('cmd', '')
             if not rej:
                 continue
+            mach = [r for r in rej if r['prop'] == 'MACHINERY']
+            if mach:
+                raise tlc.MachineryError('driver premise failed in %s: %s' % (path, mach[:5]))
             events = [json.loads(l) for l in open(path)]
             byid = {}
             for r in rej:
